@@ -316,7 +316,7 @@ func propC06(c *Ctx) {
 	for i, name := range []string{"Start", "Stop"} {
 		f := w.Field("shovel/config", "Source", name)
 		arg := lm.withRange.Call.Args[i]
-		root, chain := fieldChain(arg)
+		root, chain := lm.chain(arg)
 		ok := chainIs(chain, f) && lm.isSourceRefElem(root)
 		c.Check("R6.5", "loadTasks/WithRange/"+name, lm.withRange.Pos(), ok, "WithRange's "+name+" argument is the "+name+" field of the element of ig.Sources being iterated")
 	}
@@ -333,6 +333,8 @@ func shortSym(v ssa.Value) string {
 // ---- loadTasks model (shared with C04, C20) --------------------------------
 
 type loadTasksModel struct {
+	reg       *Region
+	optsCall  *ssa.Call
 	c         *Ctx
 	fn        *ssa.Function
 	newTask   *ssa.Call
@@ -344,13 +346,39 @@ type loadTasksModel struct {
 func newLoadTasksModel(c *Ctx) *loadTasksModel {
 	w := c.W
 	m := &loadTasksModel{c: c, fn: w.Fn("shovel", "loadTasks"), opts: map[string]*ssa.Call{}}
+	// loadTasks with its single-use helpers inlined: the task may be assembled
+	// in a helper (newSourceTask(ctx, pgp, ig, sc, scRef, src)); option
+	// arguments are then read through the helper's parameters
+	m.reg = NewRegion(m.fn)
 	nt := w.Fn("shovel", "NewTask")
-	calls := callsToFn(m.fn, nt)
-	if len(calls) != 1 {
-		fatalf("anchor: expected one NewTask call in loadTasks, found %d", len(calls))
+	var calls []*ssa.Call
+	for _, f := range m.reg.Funcs() {
+		calls = append(calls, callsToFn(f, nt)...)
 	}
+	if len(calls) != 1 {
+		fatalf("anchor: expected one NewTask call in loadTasks (or a helper only it calls), found %d", len(calls))
+	}
+	m.optsCall = calls[0]
 	m.newTask = calls[0]
-	vs, ok := varargValues(m.newTask.Call.Args[0])
+	if calls[0].Parent() != m.fn {
+		// the call of the helper stands for the construction in loadTasks; the
+		// helper must hand NewTask's results through unchanged
+		site, _ := m.reg.Lift(calls[0]).(*ssa.Call)
+		passThrough := site != nil
+		if site != nil {
+			for _, r := range returnsOf(calls[0].Parent()) {
+				vals := returnValues(r)
+				if len(vals) != 2 || vals[0] != extractOf(calls[0], 0) || vals[1] != extractOf(calls[0], 1) {
+					passThrough = false
+				}
+			}
+		}
+		if !passThrough {
+			fatalf("anchor: the helper that calls NewTask does not return its results unchanged")
+		}
+		m.newTask = site
+	}
+	vs, ok := varargValues(m.optsCall.Call.Args[0])
 	if !ok {
 		fatalf("anchor: NewTask options are not a literal option list")
 	}
@@ -363,9 +391,61 @@ func newLoadTasksModel(c *Ctx) *loadTasksModel {
 	}
 	m.withRange = m.opts["WithRange"]
 	if wi := m.opts["WithIntegration"]; wi != nil {
-		m.igVal = wi.Call.Args[0]
+		m.igVal = m.val(wi.Call.Args[0])
 	}
 	return m
+}
+
+// val: a value as seen from loadTasks (parameters of an inlined helper
+// replaced by the arguments of its call, spilled struct parameters unwrapped).
+func (m *loadTasksModel) val(v ssa.Value) ssa.Value {
+	for i := 0; i < 6; i++ {
+		v = stripConv(v)
+		if u, ok := v.(*ssa.UnOp); ok && u.Op == token.MUL {
+			if al, ok := u.X.(*ssa.Alloc); ok {
+				if cv := cellValue(al); cv != nil {
+					if _, isParam := cv.(*ssa.Parameter); isParam {
+						v = cv
+						continue
+					}
+				}
+			}
+		}
+		r := m.reg.Resolve(v)
+		if r == v {
+			return v
+		}
+		v = r
+	}
+	return v
+}
+
+// chain: fieldChain whose root is taken to loadTasks' own values.
+func (m *loadTasksModel) chain(v ssa.Value) (ssa.Value, []*types.Var) {
+	root, ch := fieldChain(v)
+	for i := 0; i < 4; i++ {
+		var pv ssa.Value
+		switch x := root.(type) {
+		case *ssa.Parameter:
+			pv = x
+		case *ssa.Alloc:
+			if cv := cellValue(x); cv != nil {
+				if p, ok := cv.(*ssa.Parameter); ok {
+					pv = p
+				}
+			}
+		}
+		if pv == nil {
+			return root, ch
+		}
+		r := m.reg.Resolve(pv)
+		if r == pv {
+			return root, ch
+		}
+		r2, ch2 := fieldChain(r)
+		root, ch = r2, append(append([]*types.Var{}, ch2...), ch...)
+	}
+	return root, ch
 }
 
 // isSourceRefElem: v is the loop element of `range X.Sources` where X is the
@@ -376,7 +456,7 @@ func (m *loadTasksModel) isSourceRefElem(v ssa.Value) bool {
 		return false
 	}
 	fSources := m.c.W.Field("shovel/config", "Integration", "Sources")
-	root, chain := fieldChain(s)
+	root, chain := m.chain(s)
 	if !chainIs(chain, fSources) {
 		return false
 	}
